@@ -91,7 +91,9 @@ func c27Check(in string, st *c27Stats, ref *c27Vec) (string, string) {
 	scheme, host, path := string(a.Scheme()), string(a.Host()), string(a.Path())
 	qs, hash := string(a.QueryString()), string(a.Hash())
 
-	if ref != nil && ref.Valid && !ref.Pct {
+	// (the exclusion of hosts that decode to a literal '%' only concerns re-parsing; the
+	// components themselves are compared with the reference for every valid vector)
+	if ref != nil && ref.Valid {
 		st.refCompared++
 		if scheme != c27B(ref.Scheme) || host != c27B(ref.Host) || path != c27B(ref.Path) || qs != c27B(ref.Query) || hash != c27B(ref.Frag) {
 			return "ref", fmt.Sprintf("Parse(%q): scheme=%q host=%q path=%q query=%q fragment=%q; reference scheme=%q host=%q path=%q query=%q fragment=%q",
@@ -172,7 +174,8 @@ func c27Check(in string, st *c27Stats, ref *c27Vec) (string, string) {
 
 const c27Alphabet = "/:?#@[]%.=&+;,!$'()*~_-0189afAFhxHX \"<>\\^`{|}\xc3\xa9"
 
-// c27Mutate applies 1-3 random edits (insert / delete / replace / duplicate a slice).
+// c27Mutate applies 1-3 random edits (insert / delete / replace / duplicate a slice /
+// percent-escape a byte / flip the case of a letter).
 func c27Mutate(s string, rng *rand.Rand) string {
 	b := []byte(s)
 	for n := 1 + rng.Intn(3); n > 0; n-- {
@@ -180,7 +183,19 @@ func c27Mutate(s string, rng *rand.Rand) string {
 		if len(b) > 0 {
 			pos = rng.Intn(len(b) + 1)
 		}
-		switch rng.Intn(4) {
+		switch rng.Intn(6) {
+		case 4: // write a byte as a percent-escape (upper- or lower-case hex digits)
+			if pos < len(b) {
+				f := "%%%02X"
+				if rng.Intn(2) == 0 {
+					f = "%%%02x"
+				}
+				b = append(b[:pos], append([]byte(fmt.Sprintf(f, b[pos])), b[pos+1:]...)...)
+			}
+		case 5: // flip the case of a letter
+			if pos < len(b) && (('a' <= b[pos] && b[pos] <= 'z') || ('A' <= b[pos] && b[pos] <= 'Z')) {
+				b[pos] ^= 0x20
+			}
 		case 0:
 			b = append(b[:pos], append([]byte{c27Alphabet[rng.Intn(len(c27Alphabet))]}, b[pos:]...)...)
 		case 1:
